@@ -103,6 +103,16 @@ func (ote *quicReservedExchanger) ExchangeReserved(ctx context.Context, q []byte
 
 	select {
 	case <-ctx.Done():
+		// A reply may have been read before ctx was done.
+		select {
+		case r := <-rc:
+			if resp := r.resp; resp != nil {
+				binary.BigEndian.PutUint16((*resp), orgQid)
+				stream.CancelRead(_DOQ_NO_ERROR)
+				return resp, nil
+			}
+		default:
+		}
 		stream.CancelRead(_DOQ_REQUEST_CANCELLED)
 		return nil, context.Cause(ctx)
 	case r := <-rc:
